@@ -340,3 +340,43 @@ func (c *Ctx) ownerFn(f *ssa.Function) *ssa.Function {
 	}
 	return f
 }
+
+// mustCallInstrs returns the instructions of g that are "a call satisfying isTarget", directly or as a call to
+// a declared helper of gluon every nil-error (or, without an error result, every) return of which passes such a
+// call (depth-limited summary).  Used by the T-MUST rules so that extracting the call into a helper is transparent.
+func (c *Ctx) mustCallInstrs(g *ssa.Function, isTarget func(cc *ssa.CallCommon) bool, depth int) map[ssa.Instruction]bool {
+	out := map[ssa.Instruction]bool{}
+	for _, cs := range engine.Calls(g) {
+		if cs.Instr.Parent() != g {
+			continue
+		}
+		cc := cs.Common()
+		if isTarget(cc) {
+			out[cs.Instr] = true
+			continue
+		}
+		sc := cc.StaticCallee()
+		if depth <= 0 || sc == nil || sc == g || len(sc.Blocks) == 0 || sc.Parent() != nil || !c.P.IsOwn(sc) {
+			continue
+		}
+		inner := c.mustCallInstrs(sc, isTarget, depth-1)
+		if len(inner) == 0 {
+			continue
+		}
+		all := true
+		for _, ret := range engine.Returns(sc) {
+			if lr := engine.LastResult(ret); lr != nil && lr.Type().String() == "error" && !engine.IsNilConst(lr) {
+				if _, isCall := lr.(*ssa.Call); !isCall {
+					continue // a failure return
+				}
+			}
+			if engine.ReachesAvoiding(sc, ret, inner, nil) {
+				all = false
+			}
+		}
+		if all {
+			out[cs.Instr] = true
+		}
+	}
+	return out
+}
